@@ -47,8 +47,10 @@ SCOPE = (
     "(edge), i.e. the first-order bound for rounding admittance and R to float32. Complex networks: "
     "all identities that are algebraic (oracle equality, symmetry, zero self distance, scaling, "
     "series/parallel, Foster, admittive degree, clustering, average); metric inequalities, "
-    "diameter, path bound, average-neighbour degree and the float32 betweenness kernels are "
-    "checked for real networks only (the kernels reject complex input)."
+    "diameter, path bound and the float32 betweenness kernels are "
+    "checked for real networks only (the kernels reject complex input); average-neighbour admittive "
+    "degree of complex networks has its own check (average_neighbors_admittive_degree/definition-"
+    "complex: the defining sum in complex arithmetic)."
 )
 RULE = (
     "One case = one network state (scenario id # number of updates so far); every clause "
@@ -414,6 +416,14 @@ def check_state(rec, net, scen, k, prevER):
         an = net.average_neighbors_admittive_degree()
         ev("average_neighbors_admittive_degree/definition", near(an, o["anad"], _maxabs(o["anad"]), 1e-12),
            lambda: "got %r expected %r" % (np.asarray(an).tolist(), o["anad"].tolist()))
+    else:
+        # complex impedances: the method has its own branch for them; the defining sum
+        # sum_j A_ij ad_j / ad_i is algebraic and evaluated in complex arithmetic
+        an = np.asarray(net.average_neighbors_admittive_degree())
+        ev("average_neighbors_admittive_degree/definition-complex",
+           near(an, o["anad"], _maxabs(o["anad"]), 1e-12),
+           lambda: "got %r expected sum_j A_ij ad_j / ad_i = %r (ratio got/expected %r)" % (
+               an.tolist(), o["anad"].tolist(), (an / o["anad"]).tolist()))
 
     # --- current-flow betweenness (float32 kernel inputs)
     if not cplx:
